@@ -298,6 +298,31 @@ func c14Strings(v reflect.Value, fn func(leaf reflect.Value)) {
 	}
 }
 
+func c14HasNonEmptyMap(v reflect.Value) bool {
+	switch v.Kind() {
+	case reflect.Ptr:
+		return !v.IsNil() && c14HasNonEmptyMap(v.Elem())
+	case reflect.Map:
+		return v.Len() > 0
+	case reflect.Slice, reflect.Array:
+		if v.Type().Elem().Kind() == reflect.Uint8 {
+			return false
+		}
+		for i := 0; i < v.Len(); i++ {
+			if c14HasNonEmptyMap(v.Index(i)) {
+				return true
+			}
+		}
+	case reflect.Struct:
+		for i := 0; i < v.NumField(); i++ {
+			if c14HasNonEmptyMap(v.Field(i)) {
+				return true
+			}
+		}
+	}
+	return false
+}
+
 func c14CountStrings(x c14Obj) int {
 	n := 0
 	c14Strings(reflect.ValueOf(x), func(reflect.Value) { n++ })
@@ -802,7 +827,9 @@ func c14PropObj(t vpT, it *c14Item, c c14Case) (nontrivial bool, classes []strin
 		xb := it.NewBytes()
 		pb := &c14Play{tape: c.Tape}
 		c14Fill(xb, pb)
-		if canonical && c14CountStrings(xb) == nStr {
+		// A dictionary is a map in the string variant and a vector of pairs in the []byte variant: the
+		// same draws may give duplicate keys there, which is another value. Compared only without maps.
+		if canonical && c14CountStrings(xb) == nStr && !c14HasNonEmptyMap(reflect.ValueOf(x)) {
 			c14ApplyRepl(xb, c.Repl)
 			if bx := c14Write(t, xb, name); !bytes.Equal(bx, b1) {
 				t.Fatalf("%s: []byte variant encodes the same value differently (first diff at byte %d)\nstring=%s\nbytes =%s", name, c14FirstDiff(b1, bx), c14Hex(b1), c14Hex(bx))
